@@ -400,6 +400,8 @@ class Crate:
                 if node.get('k') == 'MethodCall':
                     ty = self.static_type(node['recv'], q)
                     mq = self.method_of(ty, node['method']) if ty else None
+                    if not mq:
+                        mq = self.method_at(self.fns[q]['file'], node.get('line'), node['method'])
                     if mq:
                         g[q].add(mq)
                 if node.get('k') == 'Call' and node['func'].get('k') == 'Path':
@@ -456,6 +458,41 @@ class Crate:
                 visit(v)
         self.scc = comp
         return g
+
+    def context_struct(self, mod, ty_text):
+        """the crate struct named by a parameter type if it is a context record: a struct with named fields one of which is the module or the
+        write options (e.g. `StructContext { module, options, layouter, global_variable_types }`)"""
+        t = self.crate_type_in(mod, ty_text)
+        st = self.structs.get(t) if t else None
+        if not st:
+            return None
+        ftys = [fl['ty'].replace(' ', '') for fl in st.get('fields', []) if fl.get('name')]
+        return t if any(x.endswith('Module') or 'WriteOptions' in x for x in ftys) else None
+
+    def method_at(self, file, line, name):
+        """the crate method that the method call `.name(..)` starting on `line` of `file` resolves to, taken from the resolved MIR (Engine B's
+        call facts: rustc's own method resolution) - for receivers whose type is not evident from the syntax (closure parameters, elements of an
+        iteration, values returned by library calls).  None unless exactly one crate function of that name is called from that line."""
+        idx = self.__dict__.get('_mir_methods')
+        if idx is None:
+            idx = {}
+            try:
+                from engine_mir import Mir
+                from crossval import norm
+                mir = Mir()
+                for n, b in mir.bodies.items():
+                    for _, t in b.calls():
+                        callee = t['callee'] or t['raw']
+                        sp = t.get('span') or {}
+                        if callee in mir.bodies and mir.bodies[callee].kind != 'Closure' and not sp.get('exp') and sp.get('file'):
+                            q = 'crate::' + norm(callee)
+                            if q in self.fns and self.fns[q].get('impl_of'):
+                                idx.setdefault((sp['file'], sp['line'], q.rsplit('::', 1)[-1]), set()).add(q)
+            except Exception:
+                idx = {}
+            self._mir_methods = idx
+        qs = idx.get((self.relfile(file), line, name), ())
+        return next(iter(qs)) if len(qs) == 1 else None
 
     def method_of(self, ty, name):
         """qualified name of method `name` of crate type `ty` (qualified struct / enum path), or None"""
@@ -1075,9 +1112,24 @@ class Interp:
             return self.summaries[q]
         f = self.c.fns[q]
         args = []
-        for p in f['params']:
+        for p in list(f['params']):
             nm = p['pat'].get('name', '_')
-            args.append(('param', q, nm))
+            cs = self.c.context_struct(f['mod'], p['ty']) if nm not in ('self', '_') and not p.get('synthetic') else None
+            if cs:
+                # a parameter that is a context record (a crate struct carrying the module / the options next to derived tables): its fields are
+                # read as parameters of their own (`context.module` is "the module parameter" of this function, `context.options` its options),
+                # so that the rules find module and options by type whether they arrive one by one or bundled
+                fields = {}
+                for fl in self.c.structs[cs].get('fields', []):
+                    if not fl.get('name'):
+                        continue
+                    sn = f"{nm}.{fl['name']}"
+                    fields[fl['name']] = ('param', q, sn)
+                    if not any(pp['pat'].get('name') == sn for pp in f['params']):
+                        f['params'].append({'pat': {'k': 'PIdent', 'line': f.get('line', 0), 'name': sn, 'by_ref': False, 'mut': False, 'sub': None}, 'ty': fl['ty'], 'synthetic': True})
+                args.append(('struct', cs, fields))
+            elif not p.get('synthetic'):
+                args.append(('param', q, nm))
         self.summaries[q] = None
         v = self.call_fn(q, args, top=True)
         self.summaries[q] = v
@@ -1433,7 +1485,10 @@ class Interp:
                 if r[0] not in ('f', 'tf') or r[1] != body:
                     return r
         if b[0] == 'alt':
-            return ('alt', [(c, self.field(v, name)) for c, v in b[1]])
+            arms = [(c, self.field(v, name)) for c, v in b[1]]
+            if arms and arms[-1][0] == TRUE and all(v == arms[0][1] for _, v in arms):
+                return arms[0][1]       # every arm of a total choice yields the same value for this field
+            return ('alt', arms)
         if name.isdigit():
             if b[0] == 'tuple' and int(name) < len(b[1]):
                 return b[1][int(name)]
@@ -2072,6 +2127,8 @@ class Interp:
         elif self.frame['callee'] in self.c.fns:
             rty = self.c.static_type(e['recv'], self.frame['callee'])
         mq = self.c.method_of(rty, m) if rty else None
+        if not mq and self.frame['callee'] in self.c.fns:
+            mq = self.c.method_at(self.c.fns[self.frame['callee']]['file'], e.get('line'), m)
         if mq and self.c.fns[mq]['params'] and self.c.fns[mq]['params'][0]['pat'].get('name') == 'self':
             args = [self.expr(a, env) for a in e['args']]
             self.inline_calls.append((self.frame['callee'], mq, e['line']))
@@ -2515,6 +2572,27 @@ def repetition_anchor(ogp, pred, own_only=False):
                 level = sorted(nxt)
                 if not level:
                     break
+    return out
+
+
+def module_anchors(ogp, pred):
+    """[(q, template instance)]: for every quote! site whose template satisfies `pred`, the innermost function that has a `naga::Module`
+    parameter and whose (helper-inlined) summary contains that template - the site's own function when it takes the module, else the nearest
+    caller that does (a section split into `records = collect(module)` + `render(&records)` keeps its anchor)"""
+    def has_module(q):
+        return any(p['ty'].replace(' ', '').endswith('Module') for p in ogp.crate.fns[q]['params'])
+    sites = {}
+    for q, v in ogp.summaries.items():
+        if q not in ogp.crate.fns or not has_module(q):
+            continue
+        for t in find_templates(v, pred):
+            size = [0]
+            walk(v, lambda x: size.__setitem__(0, size[0] + 1) if x[0] == 'tmpl' else None)
+            sites.setdefault(t[1], []).append((t[3] != q, size[0], q, t))
+    out = []
+    for tid, cands in sites.items():
+        _, _, q, t = sorted(cands, key=lambda c: c[:3])[0]
+        out.append((q, t))
     return out
 
 
